@@ -24,7 +24,7 @@ def plan(tier):
                 "on the real emulator, compare the full snapshot diff with the AL execution (pass) or with {PC+len, "
                 "ITSTATE advanced} (fail); state = (word, cond, NZCV)",
         "bounds": {"arm_words": len(arm), "thumb_words": len(thumb), "conds": "0..14", "nzcv": "0..15",
-                   "operands": "as harvested from the test-suite, registers pointing into RAM",
+                   "operands": "as harvested from the test-suite plus every single-bit flip of the word that stays in the same encoding class (those under conds {EQ,NE} x NZCV {0000,0100}); registers pointing into RAM",
                    "excluded": "instances whose AL execution is UNDEFINED (IMPLEMENTATION DEFINED when the condition "
                                "fails) or that from_bitarray rejects as UNPREDICTABLE in that context"},
         "exhaustive": True,
@@ -72,6 +72,19 @@ def code_free(d):
 NOT_IN_IT = {"CbzT1", "ItT1", "CpsThumbT1", "CpsThumbT2", "SetendT1", "BkptT1", "BT1", "BT3"}
 
 
+def class_of(cpu, word, thumb, olen, it):
+    regs = cpu.registers
+    regs.cpsr.t = 1 if thumb else 0
+    regs.cpsr.it = it
+    cpu.opcode = word
+    cpu.opcode_len = olen
+    try:
+        cls = cpu.decode_instruction(word)
+        return cls.__name__ if cls else None
+    except Exception:  # noqa
+        return None
+
+
 def run_shard(arg):
     kind, idx = arg
     res = Result()
@@ -81,81 +94,104 @@ def run_shard(arg):
         return res.as_dict()
     thumb = kind == "thumb"
     words = isa.harvest_words(thumb)
-    iPC = plan.index["R.PC"]
-    icpsr = plan.index["cpsr"]
     for wi, (t, olen, word, cname) in enumerate(words):
         if wi % NSHARD != idx:
             continue
-        if not thumb:
-            if word >> 28 == 0xF:
+        check_word(res, cpu, plan, base, word, thumb, olen, cname, range(15), range(16))
+        # operand variants: every single-bit flip that stays in the same encoding class (P/U/W/S bits, register
+        # fields, immediates), under a reduced (cond, NZCV) alphabet that still has a failing and a passing pair
+        it_ctx = 0 if not thumb else 0x08
+        for b in range(olen):
+            if not thumb and b >= 28:
                 continue
-            variants = [((word & 0x0FFFFFFF) | (c << 28), c, 0) for c in range(15)]
-            ref_word, ref_it = (word & 0x0FFFFFFF) | (0xE << 28), 0
-        else:
-            if olen == 16 and (word >> 12) == 0xD and ((word >> 8) & 0xF) < 14:
-                variants = [((word & 0xF0FF) | (c << 8), c, 0) for c in range(14)]      # B<c> T1
-                ref_word, ref_it = 0xE000 | (word & 0xFF) | (0x700 if word & 0x80 else 0), 0   # B T2, same offset
-            elif olen == 32 and (word >> 27) == 0b11110 and (word >> 14) & 3 == 0b10 and not (word >> 12) & 1 and \
-                    ((word >> 22) & 0xF) < 14:
-                variants = [((word & ~(0xF << 22)) | (c << 22), c, 0) for c in range(14)]  # B<c>.W T3
-                ref_word = None
-            elif cname in NOT_IN_IT:
+            w2 = word ^ (1 << b)
+            if thumb and olen == 32 and thumb_len_bits(w2) != 32:
                 continue
-            else:
-                variants = [(word, c, (c << 4) | 0x8) for c in range(15)]
-                ref_word, ref_it = word, 0xE8
-        skip = set()
-        for nzcv in range(16):
-            ref = None
-            if ref_word is not None:
-                pre_r, out_r, post_r = run_one(cpu, plan, base, ref_word, thumb, olen, nzcv, ref_it)
-                ref = (out_r, code_free(plan.diff(pre_r, post_r)))
-                if out_r[0] == "host":
-                    # crash of the unconditional form: C18's business; a differential oracle has no reference here
-                    res.outcome("ref-host-error")
-                    continue
-                if out_r[0] == "ok" and (post_r[0][icpsr] & 0x1F) == 0b11011 and (pre_r[0][icpsr] & 0x1F) != 0b11011:
-                    res.outcome("ref-undefined-skipped")
-                    continue
-                if ref_it and post_r[0][icpsr] & 0x0600FC00 and out_r[0] == "ok":
-                    pass
-            for w2, c, it in variants:
-                if nzcv == 0 and not predictable(cpu, w2, thumb, olen, it):
-                    skip.add((w2, it))
-                if (w2, it) in skip:
-                    res.outcome("unpredictable-skipped")
-                    continue
-                res.cases += 1
-                res.add_state(hash((w2, c, nzcv, it)))
-                pre, out, post = run_one(cpu, plan, base, w2, thumb, olen, nzcv, it)
-                res.transitions += 1
-                n, z, cf, v = (nzcv >> 3) & 1, (nzcv >> 2) & 1, (nzcv >> 1) & 1, nzcv & 1
-                passed = bv.cond_holds(c, n, z, cf, v)
-                d = code_free(plan.diff(pre, post))
-                rp = {"thumb": thumb, "olen": olen, "word": w2, "class": cname, "cond": c, "nzcv": nzcv, "itstate": it}
-                if out[0] == "host":
-                    if ref is not None and ref[0][0] == "host":
-                        continue
-                    res.fail("%s %s@%s" % (cname, out[1], out[2]), "cond=%d nzcv=%d: %r" % (c, nzcv, out), rp)
-                    continue
-                if not passed:
-                    res.outcome("fail-cond")
-                    exp = [("R.PC", (pre[0][iPC] + olen // 8) & 0xFFFFFFFF)]
-                    if it:
-                        exp.append(("cpsr", pre[0][icpsr] & ~0x0600FC00))
-                    if out[0] != "ok" or sorted(d) != sorted(exp):
-                        res.fail("%s executes-with-failed-condition" % cname,
-                                 "word %#x cond=%d NZCV=%s: %s %s" % (w2, c, format(nzcv, "04b"), out[0], repr(d)), rp)
-                else:
-                    res.outcome("pass-cond")
-                    if ref is None:
-                        continue
-                    if (out, d) != ref:
-                        res.fail("%s passing-condition-differs-from-unconditional" % cname,
-                                 "word %#x cond=%d NZCV=%s: got %s %s; AL gives %s %s" % (
-                                     w2, c, format(nzcv, "04b"), out[0], repr(d), ref[0][0], repr(ref[1])), rp)
+            if thumb and olen == 16 and (w2 >> 11) in (0b11101, 0b11110, 0b11111):
+                continue
+            if class_of(cpu, w2, thumb, olen, it_ctx) != cname:
+                continue
+            res.count("operand_variants")
+            check_word(res, cpu, plan, base, w2, thumb, olen, cname, (0, 1), (0b0000, 0b0100))
         res.sample({"class": cname, "word": hex(word), "thumb": thumb})
     return res.as_dict()
+
+
+def thumb_len_bits(w32):
+    return 32 if (w32 >> 27) in (0b11101, 0b11110, 0b11111) else 16
+
+
+def check_word(res, cpu, plan, base, word, thumb, olen, cname, conds, nzcvs):
+    iPC = plan.index["R.PC"]
+    icpsr = plan.index["cpsr"]
+    if not thumb:
+        if word >> 28 == 0xF:
+            return
+        variants = [((word & 0x0FFFFFFF) | (c << 28), c, 0) for c in conds]
+        ref_word, ref_it = (word & 0x0FFFFFFF) | (0xE << 28), 0
+    else:
+        if olen == 16 and (word >> 12) == 0xD and ((word >> 8) & 0xF) < 14:
+            variants = [((word & 0xF0FF) | (c << 8), c, 0) for c in conds if c < 14]      # B<c> T1
+            ref_word, ref_it = 0xE000 | (word & 0xFF) | (0x700 if word & 0x80 else 0), 0   # B T2, same offset
+        elif olen == 32 and (word >> 27) == 0b11110 and (word >> 14) & 3 == 0b10 and not (word >> 12) & 1 and \
+                ((word >> 23) & 0x7) != 7:
+            variants = [((word & ~(0xF << 22)) | (c << 22), c, 0) for c in conds if c < 14]  # B<c>.W T3
+            ref_word = None
+        elif cname in NOT_IN_IT:
+            return
+        else:
+            variants = [(word, c, (c << 4) | 0x8) for c in conds]
+            ref_word, ref_it = word, 0xE8
+    skip = set()
+    first = True
+    for nzcv in nzcvs:
+        ref = None
+        if ref_word is not None:
+            pre_r, out_r, post_r = run_one(cpu, plan, base, ref_word, thumb, olen, nzcv, ref_it)
+            ref = (out_r, code_free(plan.diff(pre_r, post_r)))
+            if out_r[0] == "host":
+                # crash of the unconditional form: C18's business; a differential oracle has no reference here
+                res.outcome("ref-host-error")
+                continue
+            if out_r[0] == "ok" and (post_r[0][icpsr] & 0x1F) == 0b11011 and (pre_r[0][icpsr] & 0x1F) != 0b11011:
+                res.outcome("ref-undefined-skipped")
+                continue
+        for w2, c, it in variants:
+            if first and not predictable(cpu, w2, thumb, olen, it):
+                skip.add((w2, it))
+            if (w2, it) in skip:
+                res.outcome("unpredictable-skipped")
+                continue
+            res.cases += 1
+            res.add_state(hash((w2, c, nzcv, it)))
+            pre, out, post = run_one(cpu, plan, base, w2, thumb, olen, nzcv, it)
+            res.transitions += 1
+            n, z, cf, v = (nzcv >> 3) & 1, (nzcv >> 2) & 1, (nzcv >> 1) & 1, nzcv & 1
+            passed = bv.cond_holds(c, n, z, cf, v)
+            d = code_free(plan.diff(pre, post))
+            rp = {"thumb": thumb, "olen": olen, "word": w2, "class": cname, "cond": c, "nzcv": nzcv, "itstate": it}
+            if out[0] == "host":
+                if ref is not None and ref[0][0] == "host":
+                    continue
+                res.fail("%s %s@%s" % (cname, out[1], out[2]), "cond=%d nzcv=%d: %r" % (c, nzcv, out), rp)
+                continue
+            if not passed:
+                res.outcome("fail-cond")
+                exp = [("R.PC", (pre[0][iPC] + olen // 8) & 0xFFFFFFFF)]
+                if it:
+                    exp.append(("cpsr", pre[0][icpsr] & ~0x0600FC00))
+                if out[0] != "ok" or sorted(d) != sorted(exp):
+                    res.fail("%s executes-with-failed-condition" % cname,
+                             "word %#x cond=%d NZCV=%s: %s %s" % (w2, c, format(nzcv, "04b"), out[0], repr(d)), rp)
+            else:
+                res.outcome("pass-cond")
+                if ref is None:
+                    continue
+                if (out, d) != ref:
+                    res.fail("%s passing-condition-differs-from-unconditional" % cname,
+                             "word %#x cond=%d NZCV=%s: got %s %s; AL gives %s %s" % (
+                                 w2, c, format(nzcv, "04b"), out[0], repr(d), ref[0][0], repr(ref[1])), rp)
+        first = False
 
 
 def table(res, cpu, plan, base):
